@@ -1,7 +1,7 @@
 /* mc/h_pool.c — C09 E-sched harness: the REAL translator (all of /repo/w2c2/*.c compiled with the pthread renames and
  * -Dmain=w2c2_main) runs in-process as model thread 0; its worker threads are model threads.  Every lock / unlock /
  * cond_wait / cond_signal / cond_broadcast / create / join of the producer-worker protocol in c.c is a scheduling point.
- * Harness words = the w2c2 command line; the word "@OUT@" is replaced by <dir>/m.c where <dir> = $C09S_BASE/<pid> (one
+ * Harness words = the w2c2 command line; the word "@OUT@" is replaced by <dir>/m.c where <dir> = a fresh mkdtemp directory under $C09S_BASE (one
  * fresh directory per execution).  End state: exit status + FNV-1a digest over the sorted (name, size, contents) of every
  * file the run left in <dir>; the directory is removed afterwards. */
 #include <dirent.h>
@@ -23,8 +23,9 @@ void mc_harness_main(int argc, char** argv) {
     int n = 0;
     const char* base = getenv("C09S_BASE");
     if (!base) mc_fail("C09S_BASE not set");
-    snprintf(outdir, sizeof outdir, "%s/%d", base, (int)getpid());
-    if (mkdir(outdir, 0700) != 0) mc_fail("cannot create %s", outdir);
+    /* mkdtemp, not the pid: pids are recycled within one exploration and an execution that crashed leaves its directory behind */
+    snprintf(outdir, sizeof outdir, "%s/x%d.XXXXXX", base, (int)getpid());
+    if (!mkdtemp(outdir)) mc_fail("cannot create %s", outdir);
     snprintf(outpath, sizeof outpath, "%s/m.c", outdir);
     args[n++] = (char*)"w2c2";
     for (int i = 0; i < argc && n < 62; i++) args[n++] = strcmp(argv[i], "@OUT@") ? argv[i] : outpath;
